@@ -198,7 +198,11 @@ class NcpSim:
         if vals is None:
             return
         self.last_seq = seq
-        frame = enc_response_hdr(self.framing, seq, fid) + encode_values(rx, vals)
+        if isinstance(vals, tuple) and len(vals) == 3 and vals[0] == "__raw__":
+            # (marker, frame id, payload): answer under another frame ID, e.g. invalidCommand (0x58) + reason byte
+            frame = enc_response_hdr(self.framing, seq, vals[1]) + bytes(vals[2])
+        else:
+            frame = enc_response_hdr(self.framing, seq, fid) + encode_values(rx, vals)
         self.deliver(frame)
 
     def emit(self, name, vals):
